@@ -3,7 +3,7 @@ NOTES = ("Contract-based deductive verification: Verus on functions extracted me
          "Kani/CBMC on the real crates (scratch copy + add-only cfg(kani) overlay). exit 2 = undecided (lost anchor, "
          "timeout, unsupported construct), never a VIOLATION. See DESIGN.md.")
 ENGINES = [
-    {"name": "E1-verus", "path": "engine/rsx.py, engine/verus.py, units/, contracts/", "serves_properties": ["C01", "C03", "C06", "C16", "C17"],
+    {"name": "E1-verus", "path": "engine/rsx.py, engine/verus.py, units/, contracts/", "serves_properties": ["C01", "C03", "C06", "C15", "C16", "C17"],
      "kind_free_text": "mechanical extraction + spec splicing -> single-file Verus (z3); unbounded proofs"},
     {"name": "E2-kani", "path": "engine/overlay.py, contracts/*/kani*.rs", "serves_properties": ["C02", "C03", "C06", "C07", "C11", "C14", "C15", "C19", "C20"],
      "kind_free_text": "cargo kani (CBMC) on a scratch copy of the real crates with an add-only cfg(kani) overlay"},
@@ -85,9 +85,9 @@ CHECKS = {
     "C15": {
         "engine": "E2-kani",
         "category": "proof",
-        "text": "Kani proves the step contract of Source::try_for_some_item (end / source error / item; callback called exactly once with the mapped item iff it passes; error side and value preserved) for the Iterator source, all 39 adapter chains of depth <= 3 and the three Rio adapters, with loop-free harnesses over symbolic outcomes, adapter parameters and sink results (complete). The real whole-stream drivers (try_for_each_item, insert_all, remove_all) are run for all streams of 3 outcomes (bounded).",
+        "text": "Kani proves the step contract of Source::try_for_some_item (end / source error / item; callback called exactly once with the mapped item iff it passes; error side and value preserved) for the Iterator source, all 39 adapter chains of depth <= 3 and the three Rio adapters, with loop-free harnesses over symbolic outcomes, adapter parameters and sink results (complete). A Verus lemma (lemma_prefix, unbounded) derives the whole-stream statement from the step contract by induction; the real drivers (try_for_each_item, insert_all, remove_all) are run for all streams of 3 outcomes (bounded) to tie the lemma's driver to the real loop.",
         "design_ref": "DESIGN.md 4.4, 5 (C15)",
-        "note": "Trusted: Kani/CBMC; closures over u8 items stand for arbitrary items; a stub Rio parser replaces rio_turtle. Whole-stream statement beyond 3 items follows by induction from the step contract (not mechanised). Not covered: serializer sinks, collect_*.",
+        "note": "Trusted: Kani/CBMC, Verus/z3; closures over u8 items stand for arbitrary items; a stub Rio parser replaces rio_turtle; lemma_prefix is a spec-level lemma (no extracted code). Not covered: serializer sinks, collect_*.",
         "technique": "Kani proof harnesses stating pre/postconditions of the real functions; loop-free full-domain harnesses (complete) plus bounded stream drivers",
     },
     "C20": {
